@@ -41,7 +41,9 @@ func (r Rule) String() string {
 type TokDecl struct {
 	Name string `json:"name"` // identifier or 'x'
 	Num  int    `json:"num,omitempty"`
-	Tag  string `json:"tag,omitempty"`
+	// NumText: how the number is spelled in the file when not plain decimal without padding ("010", "-007")
+	NumText string `json:"num_text,omitempty"`
+	Tag     string `json:"tag,omitempty"`
 	// Alias: a string written after the name (and number): `%token NAME 300 "alias"`; it names no symbol
 	Alias string `json:"alias,omitempty"`
 	// Via: "token" (default), or "" when the token is only introduced by a
@@ -53,6 +55,9 @@ type PrecLevel struct {
 	Assoc string   `json:"assoc"` // left | right | nonassoc
 	Toks  []string `json:"toks"`
 	Tag   string   `json:"tag,omitempty"` // %left <tag> ...: value tag given to every token of the line
+	// Nums: explicit token numbers written after the names on the precedence line (`%left MINUS 301 PLUS`),
+	// parallel to Toks, 0 = none
+	Nums []int `json:"nums,omitempty"`
 }
 
 type TypeDecl struct {
@@ -183,7 +188,7 @@ func (s *Spec) Render() string {
 		}
 		b.WriteString(t.Name)
 		if t.Num != 0 {
-			fmt.Fprintf(&b, " %d", t.Num)
+			b.WriteString(" " + t.numText())
 		}
 		if t.Alias != "" {
 			b.WriteString(" \"" + t.Alias + "\"")
@@ -198,8 +203,11 @@ func (s *Spec) Render() string {
 		if p.Tag != "" {
 			b.WriteString(" <" + p.Tag + ">")
 		}
-		for _, t := range p.Toks {
+		for i, t := range p.Toks {
 			b.WriteString(" " + t)
+			if i < len(p.Nums) && p.Nums[i] != 0 {
+				fmt.Fprintf(&b, " %d", p.Nums[i])
+			}
 		}
 		b.WriteString("\n")
 	}
@@ -210,7 +218,7 @@ func (s *Spec) Render() string {
 		}
 		b.WriteString(t.Name)
 		if t.Num != 0 {
-			fmt.Fprintf(&b, " %d", t.Num)
+			b.WriteString(" " + t.numText())
 		}
 		if t.Alias != "" {
 			b.WriteString(" \"" + t.Alias + "\"")
@@ -404,4 +412,63 @@ func SortedCopy(x []string) []string {
 	y := append([]string(nil), x...)
 	sort.Strings(y)
 	return y
+}
+
+// Renamed returns a copy of the specification with symbols renamed (names
+// not in the map stay). Token declarations, precedence lines, %type lists,
+// the start symbol and every rule are rewritten.
+func (s *Spec) Renamed(m map[string]string) *Spec {
+	rn := func(x string) string {
+		if y, ok := m[x]; ok {
+			return y
+		}
+		return x
+	}
+	c := *s
+	c.Tokens = nil
+	for _, t := range s.Tokens {
+		t.Name = rn(t.Name)
+		c.Tokens = append(c.Tokens, t)
+	}
+	c.LateTokens = nil
+	for _, t := range s.LateTokens {
+		t.Name = rn(t.Name)
+		c.LateTokens = append(c.LateTokens, t)
+	}
+	c.Prec = nil
+	for _, p := range s.Prec {
+		q := PrecLevel{Assoc: p.Assoc, Tag: p.Tag}
+		for _, t := range p.Toks {
+			q.Toks = append(q.Toks, rn(t))
+		}
+		c.Prec = append(c.Prec, q)
+	}
+	c.Types = nil
+	for _, t := range s.Types {
+		q := TypeDecl{Tag: t.Tag}
+		for _, n := range t.Names {
+			q.Names = append(q.Names, rn(n))
+		}
+		c.Types = append(c.Types, q)
+	}
+	c.Start = rn(s.Start)
+	c.Rules = nil
+	for _, r := range s.Rules {
+		q := r
+		q.L = rn(r.L)
+		q.R = nil
+		for _, x := range r.R {
+			q.R = append(q.R, rn(x))
+		}
+		q.Prec = rn(r.Prec)
+		c.Rules = append(c.Rules, q)
+	}
+	return &c
+}
+
+func (t TokDecl) numText() string {
+	if t.NumText != "" {
+		return t.NumText
+	}
+	return fmt.Sprint(t.Num)
 }
